@@ -98,7 +98,9 @@ class Real:
         if ok:
             # the network is (already) valid: step it on both engines; whatever is computed or
             # memoised now must not leak into the steps taken after the construction continues
-            for eng in (NpEngine("rand"), CsEngine("SX")):
+            # (NumPy last: what the replaced elements keep is numeric, so that a stale reference to one of
+            # them yields a silently wrong number rather than a type error)
+            for eng in (CsEngine("SX"), NpEngine("rand")):
                 try:
                     with np.errstate(all="ignore"):
                         n.step(engine=eng, T=0.01, tau=0.005, eta=60.0, kappa=40.0, delta=0.01, phi=1.0)
